@@ -60,7 +60,7 @@ def strip_tfs_producer(o: Dict[str, Any]) -> Any:
 
 
 def join_order_class(spec: Dict[str, Any], a: Dict[str, Any], b: Dict[str, Any]) -> Optional[str]:
-    if len(spec.get("sources", [])) >= 3 and len({x["fw"] for x in spec["sources"]} | {spec["consumer"]["fw"]}) >= 2:
+    if len(spec.get("sources", [])) >= 3 and len({x["fw"] for x in spec["sources"]} | {spec["consumer"]["fw"]}) >= 2 and not spec.get("longchain"):
         return "three-sources-across-frameworks"
     if "groups" in spec and "plan" in a and "plan" in b and strip_tfs_producer(a) == strip_tfs_producer(b):
         return "tfs-required-producer-varies"
@@ -161,7 +161,7 @@ def run_in_child(spec: Dict[str, Any], limit: float) -> str:
 
 def run(ctx: Ctx) -> None:
     ctx.extra["rule"] = (
-        "requests: seeded link-free DAG requests and requests with 2-3 source groups joined by link trees (inner/left/outer/right, both orientations, "
+        "requests: seeded link-free DAG requests, chains of 3-4 equally oriented links over 4-5 sources on as many frameworks, and requests with 2-3 source groups joined by link trees (inner/left/outer/right, both orientations, "
         "equal/different key names, same or mixed frameworks); each is prepared N times in one process and in child processes with different "
         "PYTHONHASHSEED: canonical plan (uuid-free, order of independent steps ignored) or rejection (type+message modulo uuids) must coincide; every "
         "accepted plan is exported and decided by the Lean planOK (closed, acyclic, disjoint non-empty outputs) and run under a watchdog in SYNC and "
@@ -172,7 +172,9 @@ def run(ctx: Ctx) -> None:
     specs = []
     for k in range(nreq):
         r0 = ctx.rng.random()
-        if r0 < 0.15:
+        if r0 < 0.08:
+            specs.append(S.gen_long_chain_spec(ctx.rng))  # 4-5 sources on 4-5 frameworks, a chain of 3-4 equally oriented links
+        elif r0 < 0.2:
             specs.append(S.gen_units_spec(ctx.rng))  # two independent cross-framework joins requested together
         elif r0 < 0.6:
             specs.append(S.gen_link_spec(ctx.rng))
